@@ -27,7 +27,7 @@ POOL = [
     "$.sliceWhere($ > 1)", "$.groupBy($ mod 2, $, $.sum())", "$.groupBy($ mod 2, $, [$[0], $[1].sum()])", "$.groupBy($ mod 2, aggregator => $.len())", "$.enumerate().select($[0] * $[1])", "$.join($, $1 = $2, [$1, $2]).len()", "let(d => {a => $}) -> $d.a.select($ + 1)",
 ]
 
-MUTABLES = [[3, 1, 2, 1], {'b': 1, 'a': [1, 2]}, {1, 2, 3}, [[1, 2], [3]], [{'k': 1, 'v': [1]}, {'k': 2, 'v': []}], [['a', 1], ['b', 2]], ['x', 'yy']]
+MUTABLES = [[3, 1, 2, 1], {'b': 1, 'a': [1, 2]}, {'@c': 1, 'b': 2, 'a b': [3]}, {1, 2, 3}, [[1, 2], [3]], [{'k': 1, 'v': [1]}, {'k': 2, 'v': []}], [['a', 1], ['b', 2]], ['x', 'yy']]
 
 
 def deep_eq(a, b):
@@ -198,10 +198,11 @@ def run(rep, tier, seed, keep=False):
             eng_ = yaql.YaqlFactory().create(options={'yaql.convertInputData': conv})
             cx = yaql.create_context()
             chain0 = snap_chain(cx)
-            cases, _ = c08.sweep_cases(cx, eng_)
+            # every parameter that accepts a sequence, a mapping or a set (mutable host data of any kind)
+            cases, _ = c08.sweep_cases(cx, eng_, probes=[lambda: iter(()), lambda: {'a': 1}, lambda: [1], lambda: {1}])
             texts = set()
             for (name, fd, ti, pname, spec, generic) in cases:
-                for mv in (MUTABLES[:4] if quick else MUTABLES):
+                for mv in (MUTABLES[:5] if quick else MUTABLES):
                     try:
                         if not fd.parameters[pname].value_type.check(mv, cx, eng_) and not (isinstance(mv, (list, dict)) and conv):
                             continue
